@@ -430,8 +430,27 @@ func (e *Engine) checkFresh() {
 	if cnt != 0 {
 		e.violate("C15", "clear-enumerates", fmt.Sprintf("after Clear IterValues made %d callbacks", cnt), 0)
 	}
+	e.checkSketchFresh()
 	// every value accepted before the Clear has been released (C04 deadline, checked here too)
 	probe(PrFreshChecked)
+}
+
+// checkSketchFresh: "serves new writes as a fresh one would" includes the
+// admission filter. After a Clear the access-frequency estimate of every key
+// is that of a new cache, zero, unless the policy goroutine has recorded a
+// batch of accesses since that Clear was invoked (batches queued before a
+// Clear are legitimately counted after it).
+func (e *Engine) checkSketchFresh() {
+	if atomic.LoadUint64(&e.lastPolicyPush) >= atomic.LoadUint64(&e.lastClearInv) {
+		return
+	}
+	for k, h := range e.keyHash {
+		if est := e.api.Estimate(h); est != 0 {
+			e.violate("C15", "clear-keeps-frequencies", fmt.Sprintf("after Clear (no accesses recorded since) key %d still has an access-frequency estimate of %d; a new cache estimates 0", k, est), 0)
+			break
+		}
+	}
+	probe(PrSketchFreshChecked)
 }
 
 // probeClosed: after Close returned, every operation is a harmless no-op.
@@ -1169,6 +1188,9 @@ func (e *Engine) checkModel(ops []*opRec) {
 					may++
 					if seen[v.ID] == 0 && o.Arg < 0 {
 						e.violate("C06", "iter-missing", fmt.Sprintf("IterValues at #%d did not yield resident value %d (key %d)", o.InvSeq, v.ID, v.Key), o.RetSeq)
+						if v.TTL > 0 {
+							e.violate("C07", "hidden-before-expiry", fmt.Sprintf("IterValues at #%d did not yield value %d (key %d, ttl %v) although it was resident and its ttl had not elapsed", o.InvSeq, v.ID, v.Key, time.Duration(v.TTL)), o.RetSeq)
+						}
 					}
 				default:
 					may++
@@ -1220,6 +1242,7 @@ func (e *Engine) checkFreshAfterCleanClear(invSeq uint64) {
 	// are not preemption points
 	atomic.AddInt32(&core.NoUnlockYield, 1)
 	snap := e.api.Snapshot()
+	e.checkSketchFresh()
 	atomic.AddInt32(&core.NoUnlockYield, -1)
 	if len(snap.Entries) != 0 || len(snap.KeyCosts) != 0 || snap.Used != 0 {
 		e.violate("C15", "clear-not-empty", fmt.Sprintf("Clear invoked at #%d returned (no other call in flight) leaving %d entries in the map, %d keys charged, used=%d", invSeq, len(snap.Entries), len(snap.KeyCosts), snap.Used), 0)
